@@ -131,6 +131,83 @@ const SYM_MOHD: &str = "root: MOHD chunk is not the 64 bytes parse_wmo reads (tr
 const SYM_GHDR: &str = "group: MOGP header is not the 68 bytes parse_wmo reads (sub-chunks are misparsed or the size subtraction overflows)";
 const REFRAMED: &str = " [sub-chunks re-framed behind a 68-byte MOGP header]";
 
+// ------------------------------------------------------------------ thorough-tier oracles
+
+/// `discover_wmo_chunks` (stage 1 of `parse_wmo`) must see exactly the top-level chunk sequence
+/// the independent walker sees in a file whose chunks tile.
+fn discovery_oracle(r: &mut CaseResult, kind: &str, w: &[u8], wk: &Walk) {
+    if !wk.gaps.is_empty() {
+        return;
+    }
+    let mut cur = Cursor::new(w);
+    match guarded(|| discover_wmo_chunks(&mut cur)) {
+        Ok(Ok(d)) => {
+            r.count("discoveries_compared", 1);
+            let got: Vec<(String, u64, u32)> = d.chunks.iter().map(|c| (c.id.as_str().to_string(), c.offset, c.size)).collect();
+            let want: Vec<(String, u64, u32)> = wk.chunks.iter().map(|c| (c.id.clone(), c.hdr as u64, (c.end - c.start) as u32)).collect();
+            if got != want || d.is_truncated() || d.has_malformed_chunks() || d.file_size != w.len() as u64 {
+                let at = got.iter().zip(&want).position(|(a, b)| a != b).unwrap_or(got.len().min(want.len()));
+                add(
+                    r,
+                    format!("{kind}: discover_wmo_chunks does not report the chunk sequence that was written"),
+                    format!("{} vs {} chunks, first difference at chunk {}, truncated={} malformed={}", got.len(), want.len(), at, d.is_truncated(), d.has_malformed_chunks()),
+                );
+            }
+        }
+        Ok(Err(e)) => add(r, format!("{kind}: discover_wmo_chunks fails on a written file"), e.to_string()),
+        Err((file, line, msg)) => add(r, panic_class(&file, &msg), format!("discover_wmo_chunks: panic at {file}:{line}: {msg}")),
+    }
+}
+
+/// A parsed file carries version Classic (all of Classic..MoP are stored as 17). Bringing it to
+/// the version it was written for, through `WmoConverter::convert_root` and through
+/// `WmoEditor::convert_to_version` + `save_root`, must reproduce the file byte for byte.
+fn chain_through_converter_and_editor(r: &mut CaseResult, w1: &[u8], v: WmoVersion) {
+    let reparse = |w: &[u8]| guarded(|| WmoParser::new().parse_root(&mut Cursor::new(w))).ok().and_then(|x| x.ok());
+    if let Some(mut q) = reparse(w1) {
+        match guarded(|| WmoConverter::new().convert_root(&mut q, v)) {
+            Ok(Ok(())) => match write_root_bytes(&q, v) {
+                Ok(Ok(w3)) => {
+                    if w3 != w1 {
+                        add(r, "root: parse_root -> convert_root(written version) -> write_root is not byte-identical to the first write".into(), first_diff(w1, &w3));
+                    } else {
+                        r.count("converter_chain_writes_identical", 1);
+                    }
+                }
+                Ok(Err(e)) => add(r, "root: writer refuses the root it wrote, parsed and converted back to the written version".into(), e),
+                Err((file, line, msg)) => add(r, panic_class(&file, &msg), format!("write after parse+convert: panic at {file}:{line}: {msg}")),
+            },
+            Ok(Err(_)) => r.count("converter_chain_refused", 1),
+            Err((file, line, msg)) => add(r, panic_class(&file, &msg), format!("convert_root on a parsed root: panic at {file}:{line}: {msg}")),
+        }
+    }
+    if let Some(q) = reparse(w1) {
+        let res = guarded(|| {
+            let mut ed = WmoEditor::new(q);
+            if ed.convert_to_version(v).is_err() {
+                return None;
+            }
+            let mut c = Cursor::new(Vec::new());
+            match ed.save_root(&mut c) {
+                Ok(()) => Some(Ok(c.into_inner())),
+                Err(e) => Some(Err(e.to_string())),
+            }
+        });
+        match res {
+            Ok(Some(Ok(w4))) => {
+                if w4 != w1 {
+                    add(r, "root: parse_root -> WmoEditor::convert_to_version(written version) -> save_root is not byte-identical to the first write".into(), first_diff(w1, &w4));
+                } else {
+                    r.count("editor_chain_writes_identical", 1);
+                }
+            }
+            Ok(Some(Err(e))) => add(r, "root: WmoEditor::save_root refuses the root it loaded from a written file".into(), e),
+            Ok(None) => r.count("editor_chain_refused", 1),
+            Err((file, line, msg)) => add(r, panic_class(&file, &msg), format!("editor chain: panic at {file}:{line}: {msg}")),
+        }
+    }
+}
+
 // ------------------------------------------------------------------ root oracle
 
 struct RootOutcome {
@@ -140,7 +217,10 @@ struct RootOutcome {
     second: &'static str,
 }
 
-fn check_root(x: &WmoRoot, v: WmoVersion, r: &mut CaseResult) -> RootOutcome {
+/// `deep` (thorough tier only): additional oracles — chunk discovery against the walker, the
+/// parse -> convert -> write and parse -> editor -> save chains, a second write->parse generation
+/// when the first one differs.
+fn check_root(x: &WmoRoot, v: WmoVersion, r: &mut CaseResult, deep: bool) -> RootOutcome {
     let mut oc = RootOutcome { tiling: "-", parse_root: "-", parse_wmo: "-", second: "skipped" };
     let w1 = match write_root_bytes(x, v) {
         Ok(Ok(b)) => b,
@@ -193,6 +273,9 @@ fn check_root(x: &WmoRoot, v: WmoVersion, r: &mut CaseResult) -> RootOutcome {
     let mver_ok = wk.chunks.first().map(|c| c.id == "MVER" && c.end - c.start == 4 && u32_at(&w1, c.start) == Some(17)).unwrap_or(false);
     if !mver_ok {
         add(r, "root: MVER is not the first chunk with version 17".into(), format!("{:?}", wk.ids()));
+    }
+    if deep {
+        discovery_oracle(r, "root", &w1, &wk);
     }
     let mohd = wk.chunks.get(1).filter(|c| c.id == "MOHD" && c.end - c.start >= 36).cloned();
     if mohd.is_none() {
@@ -356,6 +439,29 @@ fn check_root(x: &WmoRoot, v: WmoVersion, r: &mut CaseResult) -> RootOutcome {
                     Ok(Err(e)) => add(r, "root: writer refuses the root it wrote and parsed".into(), e),
                     Err((file, line, msg)) => add(r, panic_class(&file, &msg), format!("second write_root: panic at {file}:{line}: {msg}")),
                 }
+                if deep {
+                    chain_through_converter_and_editor(r, &w1, v);
+                }
+            }
+            if deep && !ds.is_empty() && wk.gaps.is_empty() {
+                // second generation: the parsed root is a root too; what was not already reported
+                // for the first generation must survive another write->parse
+                let mut sk = broken.clone();
+                sk.extend(by_parse_root.iter().cloned());
+                if let Ok(Ok(w2)) = write_root_bytes(&p, v) {
+                    let mut cur = Cursor::new(&w2[..]);
+                    match guarded(|| WmoParser::new().parse_root(&mut cur)) {
+                        Ok(Ok(p2)) => {
+                            let (ds2, nf2) = diff(&root_model(&p, None, false), &root_model(&p2, None, false), &sk);
+                            r.count("fields_compared_second_generation", nf2);
+                            for d in &ds2 {
+                                report(r, "root", "differs after the second write->parse_root generation", d);
+                            }
+                        }
+                        Ok(Err(e)) => add(r, "root: parse_root fails on the second-generation file".into(), e.to_string()),
+                        Err((file, line, msg)) => add(r, panic_class(&file, &msg), format!("second-generation parse_root: panic at {file}:{line}: {msg}")),
+                    }
+                }
             }
         }
     }
@@ -412,7 +518,8 @@ fn check_root(x: &WmoRoot, v: WmoVersion, r: &mut CaseResult) -> RootOutcome {
             }
             if !broken.iter().any(|b| b == "groups") {
                 // as sets: a writer may store a duplicated name once
-                let want: std::collections::BTreeSet<&String> = x.groups.iter().map(|g| &g.name).collect();
+                // (and an unnamed group has no string of its own in a NUL-separated table)
+                let want: std::collections::BTreeSet<&String> = x.groups.iter().map(|g| &g.name).filter(|n| !n.is_empty()).collect();
                 let got: std::collections::BTreeSet<&String> = n.group_names.iter().collect();
                 if want != got {
                     add(r, "root: group_names differs after write->parse_wmo".into(), format!("want {:?} got {:?}", want, got));
@@ -459,7 +566,7 @@ fn mogp68(g: &WmoGroup, sub: &[u8]) -> Vec<u8> {
     out
 }
 
-fn check_group(g: &WmoGroup, v: WmoVersion, r: &mut CaseResult) -> GroupOutcome {
+fn check_group(g: &WmoGroup, v: WmoVersion, r: &mut CaseResult, deep: bool) -> GroupOutcome {
     let mut oc = GroupOutcome { tiling: "-".into(), native: "-", reframed: "-" };
     let w1 = match write_group_bytes(g, v) {
         Ok(Ok(b)) => b,
@@ -493,6 +600,9 @@ fn check_group(g: &WmoGroup, v: WmoVersion, r: &mut CaseResult) -> GroupOutcome 
         );
         oc.tiling = "top_broken".into();
         return oc;
+    }
+    if deep {
+        discovery_oracle(r, "group", &w1, &top);
     }
     let mogp = top.chunks[1].clone();
     let lay = group_layout(&w1, &mogp);
@@ -601,7 +711,7 @@ fn check_group(g: &WmoGroup, v: WmoVersion, r: &mut CaseResult) -> GroupOutcome 
         }
         Ok(Ok(ParsedWmo::Group(n))) => {
             oc.native = "ok";
-            let (ds, nf) = diff(&expected, &new_group_model(&n), &skip);
+            let (ds, nf) = diff(&expected, &new_group_model(&n, deep), &skip);
             if hdr_ok {
                 r.count("fields_compared_parse_wmo_group", nf);
             }
@@ -642,7 +752,7 @@ fn check_group(g: &WmoGroup, v: WmoVersion, r: &mut CaseResult) -> GroupOutcome 
             }
             Ok(Ok(ParsedWmo::Group(n))) => {
                 oc.reframed = "ok";
-                let (ds, nf) = diff(&expected, &new_group_model(&n), &sk);
+                let (ds, nf) = diff(&expected, &new_group_model(&n, deep), &sk);
                 r.count("fields_compared_parse_wmo_group_reframed", nf);
                 for d in &ds {
                     report(r, "group", &format!("differs after write->parse_wmo{REFRAMED}"), d);
@@ -662,17 +772,50 @@ fn k_for(space: &str, tier: Tier) -> usize {
     }
 }
 
+/// thorough tier: deviations over the extended alphabets (on top of the full product of the quick levels)
+fn k_deep(space: &str) -> usize {
+    match space {
+        "root" | "group" => 3,
+        _ => 2,
+    }
+}
+
+fn cfgs_for(space: &str, root: bool, tier: Tier) -> Vec<Vec<u8>> {
+    match tier {
+        Tier::Quick => {
+            if root {
+                configs(&ROOT_SITES, k_for(space, tier))
+            } else {
+                configs(&GROUP_SITES, k_for(space, tier))
+            }
+        }
+        Tier::Thorough => {
+            if root {
+                configs_deep(&ROOT_SITES_X, &ROOT_PROD, &full_baseline(&ROOT_SITES), k_deep(space))
+            } else {
+                configs_deep(&GROUP_SITES_X, &GROUP_PROD, &full_baseline(&GROUP_SITES), k_deep(space))
+            }
+        }
+    }
+}
+
+fn sites_of(root: bool, deep: bool) -> &'static [Site] {
+    match (root, deep) {
+        (true, false) => &ROOT_SITES,
+        (true, true) => &ROOT_SITES_X,
+        (false, false) => &GROUP_SITES,
+        (false, true) => &GROUP_SITES_X,
+    }
+}
+
 struct RoundTrip {
     root: bool,
+    deep: bool,
     cfgs: Vec<Vec<u8>>,
 }
 impl RoundTrip {
     fn sites(&self) -> &'static [Site] {
-        if self.root {
-            &ROOT_SITES
-        } else {
-            &GROUP_SITES
-        }
+        sites_of(self.root, self.deep)
     }
     fn split(&self, i: u64) -> (&Vec<u8>, WmoVersion) {
         (&self.cfgs[(i / 5) as usize], VERSIONS[(i % 5) as usize])
@@ -697,24 +840,29 @@ impl Space for RoundTrip {
         r.nontrivial = cfg.iter().any(|&l| l != 0);
         if self.root {
             let x = build_root(cfg, v);
-            let oc = check_root(&x, v, &mut r);
+            let oc = check_root(&x, v, &mut r, self.deep);
             r.outcome = format!("root tiling={} parse_root={} parse_wmo={} second={}", oc.tiling, oc.parse_root, oc.parse_wmo, oc.second);
             r.count("root_roundtrips", 1);
         } else {
             let g = build_group(cfg);
-            let oc = check_group(&g, v, &mut r);
+            let oc = check_group(&g, v, &mut r, self.deep);
             r.outcome = format!("group tiling={} native={} reframed={}", oc.tiling, oc.native, oc.reframed);
             r.count("group_roundtrips", 1);
         }
         r
     }
     fn case_timeout(&self) -> u64 {
-        30
+        if self.deep {
+            120
+        } else {
+            30
+        }
     }
 }
 
 struct Convert {
     root: bool,
+    deep: bool,
     cfgs: Vec<Vec<u8>>,
 }
 impl Convert {
@@ -752,7 +900,7 @@ impl Space for Convert {
     }
     fn describe(&self, i: u64) -> Value {
         let (cfg, a, b) = self.split(i);
-        let sites: &[Site] = if self.root { &ROOT_SITES } else { &GROUP_SITES };
+        let sites: &[Site] = sites_of(self.root, self.deep);
         json!({"kind": if self.root { "convert_root" } else { "convert_group" }, "from": vname(a), "to": vname(b), "cfg": cfg_string(sites, cfg)})
     }
     fn run(&self, i: u64) -> CaseResult {
@@ -849,6 +997,410 @@ impl Space for Convert {
         }
         r
     }
+    fn case_timeout(&self) -> u64 {
+        if self.deep {
+            120
+        } else {
+            60
+        }
+    }
+}
+
+/// Thorough tier: conversion chains A -> B -> C against the direct conversion A -> C and against
+/// the original, followed by the full write->parse oracle on the state the chain reached.
+struct ConvertChain {
+    root: bool,
+    cfgs: Vec<Vec<u8>>,
+}
+impl ConvertChain {
+    fn split(&self, i: u64) -> (&Vec<u8>, [WmoVersion; 3]) {
+        let p = i % 125;
+        (&self.cfgs[(i / 125) as usize], [VERSIONS[(p / 25) as usize], VERSIONS[(p / 5 % 5) as usize], VERSIONS[(p % 5) as usize]])
+    }
+}
+fn lowest(path: &[WmoVersion]) -> WmoVersion {
+    *path.iter().min().unwrap()
+}
+impl Space for ConvertChain {
+    fn len(&self) -> u64 {
+        self.cfgs.len() as u64 * 125
+    }
+    fn describe(&self, i: u64) -> Value {
+        let (cfg, p) = self.split(i);
+        json!({"kind": if self.root { "convert_chain_root" } else { "convert_chain_group" }, "path": format!("{}>{}>{}", vname(p[0]), vname(p[1]), vname(p[2])), "cfg": cfg_string(sites_of(self.root, true), cfg)})
+    }
+    fn run(&self, i: u64) -> CaseResult {
+        let (cfg, p) = self.split(i);
+        let [a, b, c] = p;
+        let mut r = CaseResult::new();
+        r.key = format!("chain{}:{:?}:{}>{}>{}", self.root, cfg, vname(a), vname(b), vname(c));
+        r.nontrivial = cfg.iter().any(|&l| l != 0);
+        r.count("conversion_chains", 1);
+        let conv = WmoConverter::new();
+        let low = lowest(&p);
+        if self.root {
+            let mut x = build_root(cfg, a);
+            let mut direct = build_root(cfg, a);
+            let res = guarded(|| -> std::result::Result<(), WmoError> {
+                conv.convert_root(&mut x, b)?;
+                conv.convert_root(&mut x, c)?;
+                conv.convert_root(&mut direct, c)
+            });
+            match res {
+                Err((file, line, msg)) => {
+                    add(&mut r, panic_class(&file, &msg), format!("convert_root chain: panic at {file}:{line}: {msg}"));
+                    r.outcome = "chain_root panic".into();
+                    return r;
+                }
+                Ok(Err(_)) => {
+                    r.err_return = true;
+                    r.outcome = "chain_root refused".into();
+                    return r;
+                }
+                Ok(Ok(())) => {}
+            }
+            if x.version != c {
+                add(&mut r, "convert_root: version field is not the target version afterwards".into(), format!("{:?}: {:?}", p, x.version));
+            }
+            // what every version on the path can carry must be what the direct conversion and the original have
+            let mut want = build_root(cfg, a);
+            let mut xn = build_root(cfg, a);
+            std::mem::swap(&mut xn, &mut x); // xn = chain result; x is rebuilt below for the round trip
+            let mut chain_n = xn;
+            normalise_root(&mut want, low, low);
+            normalise_root(&mut chain_n, low, low);
+            normalise_root(&mut direct, low, low);
+            let (ds, nf) = diff(&root_model(&want, None, false), &root_model(&chain_n, None, false), &[]);
+            r.count("fields_compared_conversion", nf);
+            for d in &ds {
+                report(&mut r, "convert_root chain", "is not preserved", d);
+            }
+            let (ds2, nf2) = diff(&root_model(&direct, None, false), &root_model(&chain_n, None, false), &[]);
+            r.count("fields_compared_conversion", nf2);
+            for d in &ds2 {
+                report(&mut r, "convert_root chain", "differs from the direct conversion", d);
+            }
+            // the state the chain reached (not normalised) through the writer and both parsers
+            let mut reached = build_root(cfg, a);
+            let _ = conv.convert_root(&mut reached, b);
+            let _ = conv.convert_root(&mut reached, c);
+            let oc = check_root(&reached, c, &mut r, false);
+            r.outcome = format!("chain_root {} parse_root={} second={}", oc.tiling, oc.parse_root, oc.second);
+        } else {
+            let mut g = build_group(cfg);
+            let mut direct = build_group(cfg);
+            let res = guarded(|| -> std::result::Result<(), WmoError> {
+                conv.convert_group(&mut g, b, a)?;
+                conv.convert_group(&mut g, c, b)?;
+                conv.convert_group(&mut direct, c, a)
+            });
+            match res {
+                Err((file, line, msg)) => {
+                    add(&mut r, panic_class(&file, &msg), format!("convert_group chain: panic at {file}:{line}: {msg}"));
+                    r.outcome = "chain_group panic".into();
+                    return r;
+                }
+                Ok(Err(_)) => {
+                    r.err_return = true;
+                    r.outcome = "chain_group refused".into();
+                    return r;
+                }
+                Ok(Ok(())) => {}
+            }
+            let oc = check_group(&g, c, &mut r, false);
+            let mut want = build_group(cfg);
+            if !(a == b && b == c) {
+                normalise_group(&mut want, low, low);
+                normalise_group(&mut g, low, low);
+                normalise_group(&mut direct, low, low);
+            }
+            let (ds, nf) = diff(&group_model(&want), &group_model(&g), &[]);
+            r.count("fields_compared_conversion", nf);
+            for d in &ds {
+                report(&mut r, "convert_group chain", "is not preserved", d);
+            }
+            let (ds2, nf2) = diff(&group_model(&direct), &group_model(&g), &[]);
+            r.count("fields_compared_conversion", nf2);
+            for d in &ds2 {
+                report(&mut r, "convert_group chain", "differs from the direct conversion", d);
+            }
+            r.outcome = format!("chain_group {} native={}", oc.tiling, oc.native);
+        }
+        r
+    }
+    fn case_timeout(&self) -> u64 {
+        120
+    }
+}
+
+/// Thorough tier: roots and groups reached through `WmoEditor` operation sequences (including a
+/// reload through written bytes), saved with `save_root` / `save_group` and judged by the same
+/// write->parse oracles as freshly built ones.
+const EDIT_OPS: [&str; 18] = [
+    "add_material",
+    "remove_material_first",
+    "remove_material_last",
+    "add_texture",
+    "remove_texture_first",
+    "create_group",
+    "remove_group_first",
+    "remove_group_last",
+    "add_doodad",
+    "remove_doodad_first",
+    "add_doodad_set",
+    "remove_doodad_set_first",
+    "convert_next",
+    "convert_mop",
+    "recalc_bounds",
+    "add_vertex",
+    "remove_vertex",
+    "reload",
+];
+const EDIT_STARTS: [&str; 3] = ["empty", "full", "parsed_full"];
+
+struct EditorSpace {
+    max_len: u32,
+}
+impl EditorSpace {
+    fn nseq(&self) -> u64 {
+        (0..=self.max_len).map(|l| (EDIT_OPS.len() as u64).pow(l)).sum()
+    }
+    fn split(&self, i: u64) -> (Vec<usize>, usize, WmoVersion) {
+        let v = VERSIONS[(i % 5) as usize];
+        let s = (i / 5 % EDIT_STARTS.len() as u64) as usize;
+        let mut q = i / 5 / EDIT_STARTS.len() as u64;
+        let n = EDIT_OPS.len() as u64;
+        let mut len = 0u32;
+        while q >= n.pow(len) {
+            q -= n.pow(len);
+            len += 1;
+        }
+        let mut seq = vec![0usize; len as usize];
+        for k in (0..len as usize).rev() {
+            seq[k] = (q % n) as usize;
+            q /= n;
+        }
+        (seq, s, v)
+    }
+}
+
+fn editor_full_cfg() -> Vec<u8> {
+    // the full baseline of the quick tier with doodad name offsets the writer reproduces
+    let mut cfg = full_baseline(&ROOT_SITES);
+    cfg[7] = 3;
+    cfg
+}
+
+fn next_version(v: WmoVersion) -> WmoVersion {
+    let k = VERSIONS.iter().position(|x| *x == v).unwrap_or(0);
+    VERSIONS[(k + 1) % 5]
+}
+
+/// applies one operation; "ok" / "refused" / "panic"
+fn apply_edit(ed: &mut WmoEditor, op: &str, step: usize) -> &'static str {
+    let res = guarded(|| -> std::result::Result<Option<WmoEditor>, String> {
+        let e = |x: WmoError| x.to_string();
+        match op {
+            "add_material" => {
+                ed.add_material(WmoMaterial {
+                    flags: WmoMaterialFlags::UNFOGGED | WmoMaterialFlags::WINDOW_LIGHT,
+                    shader: 4 + step as u32,
+                    blend_mode: 2,
+                    texture1: 0,
+                    emissive_color: Color { r: 1, g: 2, b: 3, a: 4 },
+                    sidn_color: Color { r: 5, g: 6, b: 7, a: 8 },
+                    framebuffer_blend: Color::default(),
+                    texture2: 0,
+                    diffuse_color: Color { r: 9, g: 10, b: 11, a: 12 },
+                    ground_type: 77,
+                });
+            }
+            "remove_material_first" => {
+                ed.remove_material(0).map_err(e)?;
+            }
+            "remove_material_last" => {
+                let n = ed.root().materials.len();
+                ed.remove_material(n.wrapping_sub(1)).map_err(e)?;
+            }
+            "add_texture" => {
+                ed.add_texture(format!("added\\tex{step}.blp"));
+            }
+            "remove_texture_first" => {
+                ed.remove_texture(0).map_err(e)?;
+            }
+            "create_group" => {
+                ed.create_group(format!("fresh_{step}"));
+            }
+            "remove_group_first" => {
+                ed.remove_group(0).map_err(e)?;
+            }
+            "remove_group_last" => {
+                let n = ed.root().groups.len();
+                ed.remove_group(n.wrapping_sub(1)).map_err(e)?;
+            }
+            "add_doodad" => {
+                ed.add_doodad(WmoDoodadDef {
+                    name_offset: 0,
+                    position: v3(1.0, 2.0, 3.0 + step as f32),
+                    orientation: [0.0, 0.0, 0.0, 1.0],
+                    scale: 1.5,
+                    color: Color { r: 4, g: 3, b: 2, a: 1 },
+                    set_index: 0,
+                });
+            }
+            "remove_doodad_first" => {
+                ed.remove_doodad(0).map_err(e)?;
+            }
+            "add_doodad_set" => {
+                ed.add_doodad_set(WmoDoodadSet { name: format!("Set_added{step}"), start_doodad: 0, n_doodads: 1 });
+            }
+            "remove_doodad_set_first" => {
+                ed.remove_doodad_set(0).map_err(e)?;
+            }
+            "convert_next" => {
+                let t = next_version(ed.current_version());
+                ed.convert_to_version(t).map_err(e)?;
+            }
+            "convert_mop" => {
+                ed.convert_to_version(WmoVersion::Mop).map_err(e)?;
+            }
+            "recalc_bounds" => {
+                ed.recalculate_global_bounding_box().map_err(e)?;
+            }
+            "add_vertex" => {
+                ed.add_vertex(0, v3(100.0 + step as f32, -100.0, 50.5)).map_err(e)?;
+            }
+            "remove_vertex" => {
+                ed.remove_vertex(0, 0).map_err(e)?;
+            }
+            "reload" => {
+                // through bytes: save, parse, open in a new editor at the version it was saved for
+                let cur = ed.current_version();
+                let mut c = Cursor::new(Vec::new());
+                ed.save_root(&mut c).map_err(e)?;
+                let bytes = c.into_inner();
+                let p = WmoParser::new().parse_root(&mut Cursor::new(&bytes[..])).map_err(e)?;
+                let mut ne = WmoEditor::new(p);
+                ne.convert_to_version(cur).map_err(e)?;
+                return Ok(Some(ne));
+            }
+            _ => unreachable!(),
+        }
+        Ok(None)
+    });
+    match res {
+        Ok(Ok(None)) => "ok",
+        Ok(Ok(Some(ne))) => {
+            *ed = ne;
+            "ok"
+        }
+        Ok(Err(_)) => "refused",
+        Err(_) => "panic",
+    }
+}
+
+impl Space for EditorSpace {
+    fn len(&self) -> u64 {
+        self.nseq() * EDIT_STARTS.len() as u64 * 5
+    }
+    fn describe(&self, i: u64) -> Value {
+        let (seq, s, v) = self.split(i);
+        let ops: Vec<&str> = seq.iter().map(|&k| EDIT_OPS[k]).collect();
+        json!({"kind": "editor", "start": EDIT_STARTS[s], "version": vname(v), "ops": ops.join(",")})
+    }
+    fn run(&self, i: u64) -> CaseResult {
+        let (seq, s, v) = self.split(i);
+        let mut r = CaseResult::new();
+        r.key = format!("ed:{:?}:{}:{}", seq, s, vname(v));
+        r.nontrivial = !seq.is_empty() || s != 0;
+        r.count("editor_sequences", 1);
+        let cfg = if s == 0 { vec![0u8; ROOT_SITES.len()] } else { editor_full_cfg() };
+        let mut root = build_root(&cfg, v);
+        if s == 2 {
+            // start from a file: written, parsed (version Classic), brought back to v by the editor below
+            let w = match write_root_bytes(&root, v) {
+                Ok(Ok(w)) => w,
+                _ => {
+                    r.err_return = true;
+                    return r;
+                }
+            };
+            root = match guarded(|| WmoParser::new().parse_root(&mut Cursor::new(&w[..]))) {
+                Ok(Ok(p)) => p,
+                _ => {
+                    r.err_return = true;
+                    r.outcome = "editor start unreadable".into();
+                    return r;
+                }
+            };
+        }
+        let mut ed = WmoEditor::new(root);
+        if s == 2 && ed.convert_to_version(v).is_err() {
+            r.err_return = true;
+            return r;
+        }
+        if s != 0 {
+            let mut g = build_group(&full_baseline(&GROUP_SITES));
+            g.header.group_index = 0;
+            let _ = ed.add_group(g);
+        }
+        let mut trace: Vec<&'static str> = vec![];
+        for (step, &k) in seq.iter().enumerate() {
+            let o = apply_edit(&mut ed, EDIT_OPS[k], step);
+            match o {
+                "ok" => r.count("editor_ops_applied", 1),
+                "refused" => r.count("editor_ops_refused", 1),
+                _ => r.count("editor_ops_panicked", 1),
+            }
+            trace.push(o);
+        }
+        // doodad name offsets: bring them to the values the writer's synthesised name table
+        // reproduces (finding F3 is judged in the root space, not here)
+        let n = ed.root().doodad_defs.len();
+        let offs = synth_offsets(n);
+        for (d, o) in ed.root_mut().doodad_defs.iter_mut().zip(offs) {
+            d.name_offset = o;
+        }
+        let cur = ed.current_version();
+        // save_root must be the writer on the editor's root
+        let saved = guarded(|| {
+            let mut c = Cursor::new(Vec::new());
+            ed.save_root(&mut c).map(|_| c.into_inner()).map_err(|e| e.to_string())
+        });
+        match (&saved, write_root_bytes(ed.root(), cur)) {
+            (Ok(Ok(a)), Ok(Ok(b))) => {
+                if *a != b {
+                    add(&mut r, "editor: save_root differs from write_root of the editor's root at its current version".into(), first_diff(a, &b));
+                }
+            }
+            (Err((file, line, msg)), _) => add(&mut r, panic_class(file, msg), format!("save_root: panic at {file}:{line}: {msg}")),
+            _ => {}
+        }
+        let oc = check_root(ed.root(), cur, &mut r, false);
+        let mut gout = String::new();
+        for gi in 0..ed.group_count() {
+            let Some(g) = ed.group(gi) else { continue };
+            let saved = guarded(|| {
+                let mut c = Cursor::new(Vec::new());
+                ed.save_group(&mut c, gi).map(|_| c.into_inner()).map_err(|e| e.to_string())
+            });
+            if let (Ok(Ok(a)), Ok(Ok(b))) = (&saved, write_group_bytes(g, cur)) {
+                if *a != b {
+                    add(&mut r, "editor: save_group differs from write_group of the loaded group".into(), first_diff(a, &b));
+                }
+            }
+            let og = check_group(g, cur, &mut r, false);
+            r.count("editor_groups_checked", 1);
+            if gi == 0 {
+                gout = format!(" group0={}/{}", og.tiling, og.native);
+            }
+        }
+        r.outcome = format!("editor [{}] root={}/{}/{}{}", trace.join(","), oc.tiling, oc.parse_root, oc.second, gout);
+        r
+    }
+    fn case_timeout(&self) -> u64 {
+        60
+    }
 }
 
 /// The legacy group parser named by the property's observation points.
@@ -882,12 +1434,34 @@ impl Space for LegacyGroupParser {
     }
 }
 
+/// level vectors of the chain spaces: <= 2 deviations over the extended alphabets, without the
+/// doodad levels whose name offsets the writer renumbers (finding F3 is judged in the root space)
+fn chain_cfgs(root: bool) -> Vec<Vec<u8>> {
+    if root {
+        let one: Vec<&[u8]> = ROOT_SITES_X.iter().map(|_| &[0u8][..]).collect();
+        configs_deep(&ROOT_SITES_X, &one, &editor_full_cfg(), 2)
+            .into_iter()
+            .filter(|c| {
+                let l = ROOT_SITES_X[7].levels[c[7] as usize];
+                !(l.starts_with("one") || l.starts_with("many"))
+            })
+            .collect()
+    } else {
+        let one: Vec<&[u8]> = GROUP_SITES_X.iter().map(|_| &[0u8][..]).collect();
+        configs_deep(&GROUP_SITES_X, &one, &full_baseline(&GROUP_SITES), 2)
+    }
+}
+
 fn build(name: &str, _arg: &str, tier: Tier) -> Box<dyn Space> {
+    let deep = tier == Tier::Thorough;
     match name {
-        "root" => Box::new(RoundTrip { root: true, cfgs: configs(&ROOT_SITES, k_for(name, tier)) }),
-        "group" => Box::new(RoundTrip { root: false, cfgs: configs(&GROUP_SITES, k_for(name, tier)) }),
-        "convert_root" => Box::new(Convert { root: true, cfgs: configs(&ROOT_SITES, k_for(name, tier)) }),
-        "convert_group" => Box::new(Convert { root: false, cfgs: configs(&GROUP_SITES, k_for(name, tier)) }),
+        "root" => Box::new(RoundTrip { root: true, deep, cfgs: cfgs_for(name, true, tier) }),
+        "group" => Box::new(RoundTrip { root: false, deep, cfgs: cfgs_for(name, false, tier) }),
+        "convert_root" => Box::new(Convert { root: true, deep, cfgs: cfgs_for(name, true, tier) }),
+        "convert_group" => Box::new(Convert { root: false, deep, cfgs: cfgs_for(name, false, tier) }),
+        "convert_chain_root" => Box::new(ConvertChain { root: true, cfgs: chain_cfgs(true) }),
+        "convert_chain_group" => Box::new(ConvertChain { root: false, cfgs: chain_cfgs(false) }),
+        "editor" => Box::new(EditorSpace { max_len: 4 }),
         "legacy_group_parser" => Box::new(LegacyGroupParser),
         _ => panic!("space {name}"),
     }
@@ -901,33 +1475,82 @@ fn main() {
     let Mode::Supervisor(mut c) = start("C15", "exploration", build) else { return };
     let tier = c.tier;
     let (kr, kc) = (k_for("root", tier), k_for("convert_root", tier));
-    c.rule = format!(
-        "A root is a function of 11 section levels (textures none/one/non_ascii/many[shared prefixes]; materials, portals, portal refs, visible lists, lights, doodad defs, doodad sets: none/one/many; groups none/one/many[shared-prefix names]/dups[duplicate names]; skybox none/some; header plain/rich[stale in-memory counts]/custom bounds); a group of 10 (vertices, normals, tex coords, indices, batches, BSP nodes, vertex colours, liquid, doodad refs: none/one/many; header plain/rich). Round-trip spaces: every level vector with <= {kr} sections deviating from the all-empty and from the all-full baseline x 5 versions Classic..MoP. Conversion spaces: every vector with <= {kc} deviations x all 25 (from,to) pairs. A case is non-trivial when at least one section is populated; distinct by (level vector, version[s])."
-    );
+    let base_rule = "A root is a function of 11 section levels (textures none/one/non_ascii/many[shared prefixes]; materials, portals, portal refs, visible lists, lights, doodad defs, doodad sets: none/one/many; groups none/one/many[shared-prefix names]/dups[duplicate names]; skybox none/some; header plain/rich[stale in-memory counts]/custom bounds); a group of 10 (vertices, normals, tex coords, indices, batches, BSP nodes, vertex colours, liquid, doodad refs: none/one/many; header plain/rich).";
+    c.rule = match tier {
+        Tier::Quick => format!(
+            "{base_rule} Round-trip spaces: every level vector with <= {kr} sections deviating from the all-empty and from the all-full baseline x 5 versions Classic..MoP. Conversion spaces: every vector with <= {kc} deviations x all 25 (from,to) pairs. A case is non-trivial when at least one section is populated; distinct by (level vector, version[s])."
+        ),
+        Tier::Thorough => format!(
+            "{base_rule} Thorough tier: (1) the FULL PRODUCT of these levels (plus doodad defs 'synth': name offsets the writer's synthesised name table reproduces, so that the second-write clause is judged with doodads present) x 5 versions for the round-trip spaces and x all 25 (from,to) pairs for the conversion spaces; (2) extended levels per section: 300 records (counts above 255/256) in every list; strings longer than 255 bytes and string tables larger than 65536 bytes (textures, group names); duplicate texture names; unnamed / non-ASCII / 18 one-flag groups; 12 one-flag materials; portals with 300 / 65535 / 65536 vertices and a portal starting at vertex 65536 (16-bit MOPT fields); doodad-set names of 20 and 25 bytes and non-ASCII; non-ASCII and 300-byte skybox; all header flags, extreme floats (infinities, -0.0, MAX, subnormal) in bounds and lights, stale-low header counts; shared and 300 doodad definitions; groups with 300 and 65537/65538 vertices, normals, tex coords, colours, indices, doodad refs; 16-bit material ids, 300 batches, 12 leaf/inner BSP nodes on all axes, 300 BSP nodes; liquids 0x0, 1x1 and 5x1 with empty tile lists, 9x9 with all flag/type bits, 257x3; all 18 group flags, extreme bounds, 0xFFFFFFFF name offset: every vector over the extended alphabets with <= {kx} sections (round trip) / <= {kcx} sections (conversion) deviating from the all-empty and the all-full baseline; (3) conversion chains A->B->C over all 125 version triples (<= 2 deviations, extended alphabets) against the direct conversion A->C and the original, followed by the whole write->parse oracle on the reached state; (4) WmoEditor operation sequences: every sequence of <= 4 of 18 operations (add/remove material, texture, group, doodad, doodad set, vertex; convert_to_version; recalculate bounds; reload = save_root -> parse_root -> new editor) from 3 start states (empty, full, full parsed from written bytes) x 5 versions, saved with save_root/save_group and judged by the same oracles. Additional thorough-tier oracles: discover_wmo_chunks agrees with the independent walker; parse_root -> convert_root(written version) -> write_root and parse_root -> WmoEditor::convert_to_version -> save_root reproduce the first write byte for byte; when the first write->parse differs, the second generation is judged on the remaining fields; liquid type of a group seen through parse_wmo. A case is non-trivial when at least one section is populated / one operation applied; distinct by (level vector, version[s]) or (start, version, operation sequence).",
+            kx = k_deep("root"),
+            kcx = k_deep("convert_root"),
+        ),
+    };
     c.assume("content equality is judged on a canonical per-section/per-field rendering (the library types have no PartialEq); derived fields are excluded: WmoRoot.version (all of Classic..MoP are stored as 17), HAS_SKYBOX header flag (derived from the skybox), WmoLight.properties (derived from light_type), texture_offset_index_map (checked separately), plane distance of portals, framebuffer_blend / set_index / convex volume planes / group materials (not stated by the property, no slot in the written format; kept at their defaults in the inputs)");
     c.assume("group files: the only working group parser is parse_wmo, which returns a different type than the writer takes; only fields with an unambiguous counterpart are compared (batch flag bytes and liquid contents are not), and a byte-identical second write of a parsed group cannot be formed through the public API");
     c.assume("the chunk walker (props/c15/src/walk.rs) is written from /repo/docs/src/formats/graphics/wmo.md and shares no code with /repo; it judges only layout-independent facts (chunks tile the file, counts, record-size multiples documented and used by both parsers, string-table resolution). The documented 64-byte MOHD / 68-byte MOGP header lengths are used only to attribute a failing parse_wmo round trip, never as a violation by themselves");
     c.assume("conversion: skybox below WotLK, SHADOW_BATCH material flags below MoP and the scene-graph/motion/exterior-BSP/mount group flags below Cataclysm/Legion are treated as not representable (the converter's own model) and are blanked on both sides");
-    for s in ["root", "group", "convert_root", "convert_group", "legacy_group_parser"] {
+    if tier == Tier::Thorough {
+        c.assume("thorough tier: inputs are internally consistent (liquid vertex / tile lists match the grid dimensions, no 0xFFFF inside a visible-block list, no NUL or empty texture / skybox strings, only defined flag bits, no NaN); a value that the format cannot hold (more than 65535 portal vertices, a doodad-set name over the 20-byte field) must be refused with Err or survive, never be written silently altered; MliqHeader::liquid_type of parse_wmo is compared with WmoLiquid::liquid_type (same name, same meaning); a panic inside a WmoEditor operation is counted (editor_ops_panicked), not judged: the property is about what the writer and the parsers do with the state that was reached; in the editor and chain spaces doodad name offsets are brought to the values the writer reproduces (finding F3 is judged in the root space)");
+    }
+    let spaces: &[&str] = match tier {
+        Tier::Quick => &["root", "group", "convert_root", "convert_group", "legacy_group_parser"],
+        Tier::Thorough => &["root", "group", "convert_root", "convert_group", "convert_chain_root", "convert_chain_group", "editor", "legacy_group_parser"],
+    };
+    for s in spaces {
         c.run_space(s, "");
     }
-    let n_root = configs(&ROOT_SITES, kr).len();
-    let n_group = configs(&GROUP_SITES, kr).len();
-    c.extra_cov.insert(
-        "axes".into(),
-        json!({
-            "versions": 5,
-            "conversion_pairs": 25,
-            "root_sites": ROOT_SITES.iter().map(|s| json!({s.name: s.levels.len()})).collect::<Vec<_>>(),
-            "group_sites": GROUP_SITES.iter().map(|s| json!({s.name: s.levels.len()})).collect::<Vec<_>>(),
-            "max_deviations_roundtrip": kr,
-            "max_deviations_conversion": kc,
-            "root_level_vectors": n_root,
-            "group_level_vectors": n_group,
-            "root_conversion_vectors": configs(&ROOT_SITES, kc).len(),
-            "group_conversion_vectors": configs(&GROUP_SITES, kc).len(),
-        }),
-    );
+    match tier {
+        Tier::Quick => {
+            let n_root = configs(&ROOT_SITES, kr).len();
+            let n_group = configs(&GROUP_SITES, kr).len();
+            c.extra_cov.insert(
+                "axes".into(),
+                json!({
+                    "versions": 5,
+                    "conversion_pairs": 25,
+                    "root_sites": ROOT_SITES.iter().map(|s| json!({s.name: s.levels.len()})).collect::<Vec<_>>(),
+                    "group_sites": GROUP_SITES.iter().map(|s| json!({s.name: s.levels.len()})).collect::<Vec<_>>(),
+                    "max_deviations_roundtrip": kr,
+                    "max_deviations_conversion": kc,
+                    "root_level_vectors": n_root,
+                    "group_level_vectors": n_group,
+                    "root_conversion_vectors": configs(&ROOT_SITES, kc).len(),
+                    "group_conversion_vectors": configs(&GROUP_SITES, kc).len(),
+                }),
+            );
+        }
+        Tier::Thorough => {
+            let es = EditorSpace { max_len: 4 };
+            c.extra_cov.insert(
+                "axes".into(),
+                json!({
+                    "versions": 5,
+                    "conversion_pairs": 25,
+                    "conversion_triples": 125,
+                    "root_sites": ROOT_SITES_X.iter().map(|s| json!({s.name: s.levels.len()})).collect::<Vec<_>>(),
+                    "group_sites": GROUP_SITES_X.iter().map(|s| json!({s.name: s.levels.len()})).collect::<Vec<_>>(),
+                    "root_full_product_levels": ROOT_PROD.iter().map(|p| p.len()).collect::<Vec<_>>(),
+                    "group_full_product_levels": GROUP_PROD.iter().map(|p| p.len()).collect::<Vec<_>>(),
+                    "root_full_product_vectors": ROOT_PROD.iter().map(|p| p.len() as u64).product::<u64>(),
+                    "group_full_product_vectors": GROUP_PROD.iter().map(|p| p.len() as u64).product::<u64>(),
+                    "max_deviations_extended_roundtrip": k_deep("root"),
+                    "max_deviations_extended_conversion": k_deep("convert_root"),
+                    "max_deviations_extended_chain": 2,
+                    "root_level_vectors": cfgs_for("root", true, tier).len(),
+                    "group_level_vectors": cfgs_for("group", false, tier).len(),
+                    "root_conversion_vectors": cfgs_for("convert_root", true, tier).len(),
+                    "group_conversion_vectors": cfgs_for("convert_group", false, tier).len(),
+                    "root_chain_vectors": chain_cfgs(true).len(),
+                    "group_chain_vectors": chain_cfgs(false).len(),
+                    "editor_operations": EDIT_OPS.len(),
+                    "editor_max_sequence_length": es.max_len,
+                    "editor_sequences": es.nseq(),
+                    "editor_start_states": EDIT_STARTS.len(),
+                }),
+            );
+        }
+    }
     c.finish();
 }
 
